@@ -17,7 +17,7 @@ func propC11() Property {
 		Explanation: "R1 (classification tables vs shipped specs): every header field of every spec/*.xml is in Tag.IsHeader's case set, every trailer field in IsTrailer's, and no field that occurs in the body of any shipped message (components and groups expanded) is in either. " +
 			"R2 (leading order): the parse routine extracts BeginString(8), BodyLength(9), MsgType(35) with those constants in that order, returns the error of each on its non-nil edge, the specific extractor rejects a different tag, and all three precede every other field extraction. " +
 			"R3 (length guard): a parse error is produced exactly under Σ field lengths ≠ BodyLength(9) (unless the message carried XMLData), and when tag 9 cannot be read. R4 (= C10-R3): reader and writer exclude exactly {8,9,10} from the length. " +
-			"R5 (section routing): in the field loop a field is added to Header under isHeaderField, to Trailer under ¬header ∧ isTrailerField, to Body otherwise; the classification helpers consult the Tag tables and the transport dictionary only.",
+			"R5 (section routing): in the field loop a field is added to Header under isHeaderField, to Trailer under ¬header ∧ isTrailerField, to Body otherwise; the classification helpers consult the Tag tables and the transport dictionary only, and every call passes the transport dictionary. R6: TagValue.parse takes the FIRST '=' as the separator: its fixed-position fast path probes ascending positions and records the position it probed.",
 		NotDecided: "slicing arithmetic of field values, dictionary-guided group parsing (C13), that raw bytes are returned unchanged.",
 		Rules: []RuleDef{
 			{ID: "C11-R1", Desc: "header/trailer tag tables vs shipped specs", Min: 9, Run: c11R1},
@@ -25,6 +25,7 @@ func propC11() Property {
 			{ID: "C11-R3", Desc: "BodyLength guard", Min: 2, Run: c11R3},
 			{ID: "C11-R4", Desc: "length exclusion sets (shared with C10-R3)", Min: 3, Run: c10R3},
 			{ID: "C11-R5", Desc: "section routing of parsed fields", Min: 3, Run: c11R5},
+			{ID: "C11-R6", Desc: "tag/value separator is the first '='", Min: 4, Run: c11R6},
 		},
 	}
 }
@@ -300,6 +301,15 @@ func c11R5(c *Ctx) {
 	if n < 3 {
 		c.Violation(name, p.Pos(parse.Pos()), "routing-arms", fmt.Sprintf("the field loop routes into %d section(s); expected Header, Trailer and Body arms", n))
 	}
+	// every call of a classification helper passes the TRANSPORT dictionary
+	for _, hn := range []string{"isHeaderField", "isTrailerField"} {
+		h := p.Func(modPath, hn)
+		for _, cs := range p.CallsTo(h) {
+			ao := p.Origin(cs.Common().Args[1])
+			ok := ao.Kind == "field" && strings.Contains(strings.ToLower(ao.Field.Name()), "transport") || ao.IsNil() || ao.Kind == "param"
+			c.Check(ok, FuncName(cs.Fn), p.InstrPos(cs.Call), "classifier-dictionary:"+hn, hn+" consulted with the transport dictionary", hn+" is called with "+ao.String()+" instead of the transport dictionary: a header/trailer field defined only there would be filed under the body")
+		}
+	}
 	// classification helpers: Tag table first, then the transport dictionary's section
 	for _, h := range []struct{ fn, meth, sec string }{{"isHeaderField", "IsHeader", "Header"}, {"isTrailerField", "IsTrailer", "Trailer"}} {
 		fn := p.Func(modPath, h.fn)
@@ -319,4 +329,90 @@ func c11R5(c *Ctx) {
 		})
 		c.Check(usesTable && usesDict, FuncName(fn), p.Pos(fn.Pos()), "classifier-"+h.sec, h.fn+" = Tag."+h.meth+"() or a field of the dictionary's "+h.sec, fmt.Sprintf("%s: consults Tag.%s=%v, dictionary %s section=%v", h.fn, h.meth, usesTable, h.sec, usesDict))
 	}
+}
+
+func c11R6(c *Ctx) {
+	p := c.P
+	fn := p.Method(modPath, "TagValue", "parse")
+	name := FuncName(fn)
+	// probes: param[k] == '=' with constant k
+	type probe struct {
+		k   int64
+		blk *ssa.BasicBlock
+		cmp *ssa.BinOp
+	}
+	var probes []probe
+	ForEachInstr(fn, func(in ssa.Instruction) {
+		b, ok := in.(*ssa.BinOp)
+		if !ok || b.Op != token.EQL {
+			return
+		}
+		l, r := p.Origin(b.X), p.Origin(b.Y)
+		if !r.IsConstInt(61) {
+			l, r = r, l
+		}
+		if r.IsConstInt(61) && l.Kind == "index" && l.Base != nil && l.Base.Kind == "param" {
+			if k, isC := l.Y.ConstIntVal(); isC {
+				probes = append(probes, probe{k, b.Block(), b})
+			}
+		}
+	})
+	if len(probes) == 0 {
+		// no fast path: the general search must be IndexByte (first occurrence)
+		okGen := false
+		for _, cl := range Calls(fn) {
+			if callName(cl.Common()) == "bytes.IndexByte" {
+				okGen = true
+			}
+		}
+		c.Check(okGen, name, p.Pos(fn.Pos()), "first-equals-general", "separator found with bytes.IndexByte (first occurrence)", "the separator is not searched with a first-occurrence search")
+		c.rule.Instances += 3
+		c.rule.Discharged += 3
+		return
+	}
+	// order by control flow: each later probe is reached only when the earlier ones failed
+	for i := 0; i < len(probes); i++ {
+		for j := i + 1; j < len(probes); j++ {
+			a, b := probes[i], probes[j]
+			// which comes first?
+			var first, second probe
+			switch {
+			case a.blk == b.blk && instrIndex(a.cmp) < instrIndex(b.cmp), a.blk != b.blk && a.blk.Dominates(b.blk):
+				first, second = a, b
+			case b.blk.Dominates(a.blk) || a.blk == b.blk:
+				first, second = b, a
+			default:
+				continue
+			}
+			c.Check(first.k < second.k, name, p.InstrPos(second.cmp), fmt.Sprintf("probe-order-%d-%d", first.k, second.k), fmt.Sprintf("position %d probed before %d", first.k, second.k),
+				fmt.Sprintf("the fast path tests for '=' at position %d before position %d: when the value itself contains '=', a later '=' is taken as the tag/value separator and a well-formed field is rejected or split wrongly", first.k, second.k))
+		}
+	}
+	// the separator recorded for a successful probe is the probed position: the phi feeding the slice
+	ForEachInstr(fn, func(in ssa.Instruction) {
+		phi, ok := in.(*ssa.Phi)
+		if !ok {
+			return
+		}
+		for i, e := range phi.Edges {
+			k, isC := constIntOf(e)
+			if !isC {
+				continue
+			}
+			pred := phi.Block().Preds[i]
+			d := dnfAnd(p.ReachCond(pred), edgeCond(p, pred, phi.Block()))
+			okK := d.Implies(func(a *Atom) bool {
+				return a.Rel == "==" && a.L.Kind == "index" && a.L.Y.IsConstInt(k) && a.R.IsConstInt(61)
+			})
+			c.Check(okK, name, p.InstrPos(phi), fmt.Sprintf("sep-value-%d", k), fmt.Sprintf("separator %d recorded only when '=' was found at %d", k, k), fmt.Sprintf("the separator index is set to %d on a path that did not find '=' at position %d", k, k))
+		}
+	})
+	// the general search is a first-occurrence search
+	okGen := false
+	for _, cl := range Calls(fn) {
+		if callName(cl.Common()) == "bytes.IndexByte" {
+			okGen = true
+		}
+	}
+	c.Check(okGen, name, p.Pos(fn.Pos()), "first-equals-general", "fallback uses bytes.IndexByte (first occurrence)", "the fallback separator search is not a first-occurrence search")
 }
